@@ -16,6 +16,7 @@ sys.setrecursionlimit(100000)
 
 
 snapshot = optcorr.snapshot
+PURITY_BUDGET = 400000  # line events per analysis call in the purity histories (trees of <= 30 nodes need a few thousand)
 
 
 def cost_limit(size):
@@ -83,7 +84,7 @@ def main(tier):
     quant = [cases.random_tree(rng, rng.randint(3, 14), list(cases.quantified_atoms(cases.elem_preds()))[:60] + cases.coll_atoms() + ["tt", "ff"]) for _ in range(1500)]
     big = [cases.random_tree(rng, rng.randint(60, 400), cases.prop_leaves(cases.NAMES5) + cases.scalar_atoms()[:30]) for _ in range(150 if tier == "quick" else 1500)]
     rep = list(cases.repeat_shapes(cases.mergeable_atoms()))
-    for name, cs in (("opt/prop", prop), ("opt/scalar", scal), ("opt/repeated-atom", rep), ("opt/quantified", quant), ("opt/big-random", big)):
+    for name, cs in (("opt/prop", prop), ("opt/scalar", scal), ("opt/repeated-atom", rep), ("opt/quantified", quant), ("opt/big-random", big), ("opt/print-alike-constants", cases.printalike_trees())):
         optcorr.run(chk, name, cs, cfg, never, share=True)
     # 2. cost: number of optimize* invocations on growing families (measurement, not proof)
     sizes = [8, 16, 32, 64] + ([128, 256] if tier == "thorough" else [128])
@@ -123,24 +124,30 @@ def main(tier):
         for _k in range(rng.randint(1, 8 if tier == "quick" else 30)):
             op = rng.choice(ops)
             calls += 1
+            lim = lambda fn: budget.limited(fn, PURITY_BUDGET)[0]  # noqa: E731  every library call under a line-event budget
             try:
                 if op == "optimize":
-                    r1, r2 = optimize(p), optimize(copy.deepcopy(fresh))
+                    r1, r2 = lim(lambda: optimize(p)), lim(lambda: optimize(copy.deepcopy(fresh)))
                     same = r1 == r2
                 elif op == "can_optimize":
-                    same = can_optimize(p) == can_optimize(copy.deepcopy(fresh))
+                    same = lim(lambda: can_optimize(p)) == lim(lambda: can_optimize(copy.deepcopy(fresh)))
                 elif op == "negate":
-                    same = negate(p) == negate(copy.deepcopy(fresh))
+                    same = lim(lambda: negate(p)) == lim(lambda: negate(copy.deepcopy(fresh)))
                 elif op == "implies":
-                    same = implies(p, other) == implies(copy.deepcopy(fresh), other) and implies(other, p) == implies(other, copy.deepcopy(fresh))
+                    same = lim(lambda: implies(p, other)) == lim(lambda: implies(copy.deepcopy(fresh), other)) and lim(lambda: implies(other, p)) == lim(lambda: implies(other, copy.deepcopy(fresh)))
                 elif op == "to_json":
-                    same = to_json(p) == to_json(copy.deepcopy(fresh))
+                    same = lim(lambda: to_json(p)) == lim(lambda: to_json(copy.deepcopy(fresh)))
                 elif op == "to_dot":
-                    same = to_dot(p).body == to_dot(copy.deepcopy(fresh)).body
+                    same = lim(lambda: to_dot(p).body) == lim(lambda: to_dot(copy.deepcopy(fresh)).body)
                 else:
                     g = generate_true if op == "generate_true" else generate_false
                     budget.take(lambda: g(p), 3, 20000)
                     same = True
+            except budget.Starved:
+                if op in ("optimize", "can_optimize"):  # the terminating half of the property
+                    chk.add_failure(S.show(s), {"what": f"{op} did not return within {PURITY_BUDGET} interpreter line events on a tree of {S.size(s)} nodes"}, None)
+                    break
+                same = True
             except Exception:  # noqa: BLE001  an exception is not a mutation (C17/C18/C09 judge those)
                 same = True
             after = snapshot(p)
